@@ -469,7 +469,7 @@ class rescan_nglobs:
     that registration's own pattern and substitutions differs from its recorded matches."""
 
     args = dict(workflow=_rn_workflow, reporter=ty.Make(Reporter))
-    env = dict(NamedGlob=_FreshGlob, set=_rn_set, sorted=lambda x: [], list=lambda x: x)
+    env = dict(NamedGlob=_FreshGlob, set=_rn_set, sorted=lambda x: [], list=lambda x: x, tuple=lambda x: x)
     events = {"persist_nglob": _rn_persist_guard}
     modifies = []
     loops = {0: LoopSpec(locals=dict(changed_nglobs=ChangedSeq), forall=dict(k=ty.Int), invariant=_rn_inv),
